@@ -190,6 +190,21 @@ func (m *gmachine) exec(ev map[string]any) {
 		ay2, _ := json.Marshal(proj.NodeList(y))
 		ev["argsame"] = string(ay2) == string(by)
 		return
+	case "ExtractAll":
+		// one (graph, start) of the exported universe through every extraction; the source compared afterwards
+		g := proj.ToNodeList(obj(ev, "g"))
+		before, _ := json.Marshal(proj.NodeList(g))
+		id := str(ev, "id")
+		ev["graph"] = proj.NodeList(g.NodeGraph(id))
+		ev["sib"] = proj.NodeList(g.NodeSiblings(id))
+		ds := []any{}
+		for k := 1; k <= 3; k++ {
+			ds = append(ds, proj.NodeList(g.NodeDescendants(id, k)))
+		}
+		ev["desc"] = ds
+		after, _ := json.Marshal(proj.NodeList(g))
+		ev["same"] = string(before) == string(after)
+		return
 	case "CopyElem":
 		// the element-level copies (node, edge, person, external reference): same content, equal, no shared storage
 		k := integer(ev, "k")
